@@ -254,7 +254,7 @@ func TermEntries() []Entry {
 			f.Line("invoke void @vf() to label %%done unwind label %%cs")
 			f.Label("cs")
 			two := f.Flip("two-handlers")
-			unwind := f.Alt("catchswitch-unwind", "to caller", "label %cu")
+			unwind := f.Alt("catchswitch-unwind", "to caller", "label %cu", "label %outer")
 			hs := "label %h1"
 			if two {
 				hs += ", label %h2"
@@ -271,7 +271,17 @@ func TermEntries() []Entry {
 				f.Line("%%c2 = catchpad within %%s [i8* null, i32 64, i8* null]")
 				f.Line("catchret from %%c2 to label %%done")
 			}
-			if unwind != "to caller" {
+			if unwind == "label %outer" {
+				// nested scopes: the inner catchswitch unwinds to the dispatch block of an outer one
+				f.Label("outer")
+				f.Line("%%so = catchswitch within none [label %%ho, label %%ho2] unwind to caller")
+				f.Label("ho")
+				f.Line("%%co = catchpad within %%so [i8* null, i32 64, i8* null]")
+				f.Line("catchret from %%co to label %%done")
+				f.Label("ho2")
+				f.Line("%%co2 = catchpad within %%so [i32 %s]", a)
+				f.Line("catchret from %%co2 to label %%done")
+			} else if unwind != "to caller" {
 				f.Label("cu")
 				f.Line("%%u = cleanuppad within none [%s]", f.Alt("cleanuppad-args", "", "i32 "+a))
 				f.Line("cleanupret from %%u unwind %s", f.Alt("cleanupret-unwind", "to caller", "label %cu2"))
